@@ -71,7 +71,12 @@ VReparse(ev) ==
     Ok(Len(src) = Len(got), "reparse:gene-count"),
     Ok(Len(src) # Len(got) \/ \A i \in DOMAIN src : src[i][1] = got[i][1], "reparse:structure(exons,cds,frames,strand)"),
     Ok(Len(src) # Len(got) \/ \A i \in DOMAIN src : src[i][2] = got[i][2], "reparse:identifiers"),
-    IF Len(src) # Len(got) \/ \A i \in DOMAIN src : src[i][3] = got[i][3] THEN "ok" ELSE "reparse:transcript-biotype-survives",
+    \* named deviation (keyed known finding gff3:transcript-biotype-from-gene-row): the parser reads the transcript's
+    \* biotype from the GENE row, so every transcript comes back with its gene's biotype -- only that answer is excused
+    IF Len(src) # Len(got) \/ \A i \in DOMAIN src : src[i][3] = got[i][3] THEN "ok"
+    ELSE IF \A i \in DOMAIN src : got[i][3][1] = src[i][3][1] /\ Len(got[i][3][2]) = Len(src[i][3][2])
+                                    /\ \A k \in DOMAIN got[i][3][2] : got[i][3][2][k] \in {src[i][3][2][k], src[i][3][1]}
+         THEN "reparse:transcript-biotype-survives" ELSE "reparse:biotypes",
     Ok(Len(src) # Len(got) \/ \A i \in DOMAIN src : src[i][4] = got[i][4], "reparse:qualifiers"),
     \* re-export: byte-identical (strict) and identical up to the opaque ID / Parent values and attribute order;
     \* not judged when the transcript biotype was already lost (the file necessarily differs there)
